@@ -20,7 +20,7 @@ FLOORS = {
     "quick": {"resource_citations": 8000, "years_checked": 4000, "guess_multi": 300, "ambiguous_left": 300,
               "remove_ambiguous_compared": 2000, "remove_ambiguous_dropped": 300,
               "pos:after": 200, "pos:court": 200, "pos:before": 200, "pos:bracket": 200, "pos:range": 200,
-              "pos:none": 100, "pos:inside_citation": 80, "pos:after_reference": 80, "pos:parallel": 200, "year_boundary:low": 100, "year_boundary:high": 100,
+              "pos:none": 100, "pos:inside_citation": 50, "pos:journal_or_statute": 80, "pos:after_reference": 80, "pos:parallel": 200, "year_boundary:low": 100, "year_boundary:high": 100,
               "year_rejected": 200, "db_strings_checked": 800},
     "thorough": {"resource_citations": 500000, "guess_multi": 20000, "ambiguous_left": 20000,
                  "remove_ambiguous_compared": 100000, "year_rejected": 10000},
@@ -70,7 +70,15 @@ def year_doc(rng, rec):
         v, p = rng.randint(1, 300), rng.randint(1, 900)
         P, D = gen.word(rng), gen.word(rng)
         form = rng.random()
-        if form < 0.07:
+        if form < 0.05:
+            # journals and statutes take their year through other code than cases
+            from reporters_db import LAWS
+            if rng.random() < 0.6:
+                s = f"{v} {rng.choice(gen.DB.journals)} {p}" + rng.choice(["", f", {p + 2}"]) + f" ({y})"
+            else:
+                s = f"{rng.choice(sorted(LAWS))} § {p} ({rng.choice(['', 'West ', 'Supp. '])}{y})"
+            rec.count("pos:journal_or_statute")
+        elif form < 0.1:
             # the year is part of the citation itself ('14 How. Pr. (1857) 10'), with or without a pin cite and
             # a year parenthesis after it
             s = f"{P} v. {D}, {gen.year_group_member(rng)}" + rng.choice(["", ", 5", f", 5 ({y})", f" ({y})", ", 5-6, 9"])
